@@ -573,6 +573,11 @@ func doParent(tier string, nworkers int, only string, d time.Duration, noEvid bo
 		fmt.Printf("c14: observation %s: %d executions\n", n, c)
 	}
 	if machinery {
+		// a run that found a violation reports it (exit 1) even if other shards broke; exit 2 only
+		// when nothing was found and something broke. No evidence is written in either case.
+		if nviol > 0 {
+			return 1
+		}
 		return 2
 	}
 	if !noEvid {
